@@ -20,8 +20,12 @@ def real_program(ops):
     return prog
 
 
-def check(rep: Report) -> None:
-    cfg = "MC_Draw.cfg" if rep.tier == "quick" else "MC_Draw_thorough.cfg"
+def check(rep: Report, what: str = "clean") -> None:
+    """what = "clean": C06 (program of uninterrupted draws); "interrupted": C07 (clean-up programs)."""
+    if what == "clean":
+        cfg = "MC_Draw.cfg" if rep.tier == "quick" else "MC_Draw_thorough.cfg"
+    else:
+        cfg = "MC_Draw_small.cfg" if rep.tier == "quick" else "MC_Draw.cfg"
     res = tlc.run("MC_Draw", cfg, workers=8, timeout=1500)
     rep.add_tlc(res)
     rep.extra["mc_draw"] = {"states": res.distinct, "generated": res.generated, "cfg": cfg}
@@ -29,9 +33,9 @@ def check(rep: Report) -> None:
         rep.violation(f"design:Draw:{res.violated}", res.error_text[:2000], {"kind": "design"})
         return
     progs = res.tagged("PROG")
-    if len(progs) < 50:
+    if len(progs) < 20:
         raise tlc.MachineryError(f"only {len(progs)} PROG lines from MC_Draw")
-    for pr in progs:
+    for pr in progs if what == "clean" else []:
         c = pr["c"]
         case = dict(api="new", rw=c["rw"], rh=c["rh"], frames=c["frames"], loops=c["loops"], cache=False,
                     pad={"kind": "exact", "l": c["l"], "t": c["t"], "r": c["r"], "b": c["b"]},
@@ -52,4 +56,30 @@ def check(rep: Report) -> None:
                 f"({len(real)} vs {len(want)} operations) for {case}",
                 {"kind": "draw", "case": dict(case, r0=0)},
             )
+    # interrupted runs: the operations issued AFTER a Ctrl-C at body operation k must be exactly
+    # the clean-up program Draw.tla specifies for that k (first_frame_written or not)
+    for pr in progs if what == "interrupted" else []:
+        c = pr["c"]
+        if c["r0"] != 0:
+            continue
+        case = dict(api="new", rw=c["rw"], rh=c["rh"], frames=c["frames"], loops=c["loops"], cache=False,
+                    pad={"kind": "exact", "l": c["l"], "t": c["t"], "r": c["r"], "b": c["b"]},
+                    cols=c["cols"], rows=c["rows"], tty=c["tty"], r0=0, animate=True,
+                    hide_cursor=True, echo_input=True)
+        for k in range(1, pr["nbody"] + 1):
+            r = drawkit.run_new(case, dict(k=k, p=0, kind="kbint"))
+            rep.evaluations += 1
+            if not r["fired"]:
+                continue
+            real = real_program(r["ops"])[k:]
+            want = [{"op": o["op"], "toks": list(o["toks"])} for o in pr["cleanups"][k - 1]]
+            rep.distinct.add(("cleanup", tuple(sorted(c.items())), k))
+            if real != want:
+                rep.violation(
+                    "new-api:draw:interrupted-cleanup",
+                    f"after a Ctrl-C at operation #{k} ({r['ops'][k - 1][0]}) the real draw() issued "
+                    f"{[(o['op'], [t['k'] + str(t['n']) for t in o['toks']]) for o in real]}, Draw.tla specifies "
+                    f"{[(o['op'], [t['k'] + str(t['n']) for t in o['toks']]) for o in want]} for {case}",
+                    {"kind": "fault", "case": case, "fault": dict(k=k, p=0, kind="kbint"), "expect": "n/a"},
+                )
     rep.sample({"draw_program": {"params": progs[0]["c"], "ops": [o["op"] for o in progs[0]["prog"]]}})
